@@ -3,6 +3,7 @@
 From Coq Require Import ZArith List Bool Reals Lia Lra.
 From QP Require Import Cx Apply Gates Rsem.
 From QPM Require Import Transpile Inverse Pauli PauliRot PauliRotInv.
+From QPM Require Import UMInverse.
 From QPG Require Import invtab.
 Import ListNotations.
 
@@ -79,6 +80,29 @@ Theorem pauli_rotation_inverse_undoes :
   forall theta l psi, NoDup (keys l) -> prot (- theta) l (prot theta l psi) = psi.
 Proof. intros. apply prot_inverse. assumption. Qed.
 Print Assumptions pauli_rotation_inverse_undoes.
+
+(* the two branches of inverse_gate outside the per-kind table, as regenerated from /repo: PauliRotation keeps targets and
+   Pauli ids and multiplies the angle by prot_inverse_scale; UnitaryMatrix keeps the targets and applies um_inverse_flags
+   (conjugated?, transposed?) to the matrix *)
+Theorem pauli_rotation_branch_negates_the_angle : prot_inverse_scale = (-1)%Z.
+Proof. vm_compute. reflexivity. Qed.
+
+Definition um_apply (f : bool * bool) (A : CM) : CM :=
+  fun x y => let a := if snd f then A y x else A x y in if fst f then Cconj a else a.
+
+Theorem unitary_matrix_branch_is_the_adjoint : forall A, um_apply um_inverse_flags A = adjM A.
+Proof. intros A. vm_compute. reflexivity. Qed.
+
+(* a UnitaryMatrix gate followed by inverse_gate of it is the identity, exactly: every number of target qubits, every
+   placement on distinct qubits of a register of any size, every unitary matrix *)
+Theorem unitary_matrix_inverse_undoes :
+  forall (A : CM) (qs : list nat), NoDup qs -> unitary_on qs A ->
+  forall psi, csem [(A, qs); (um_apply um_inverse_flags A, qs)] psi = psi.
+Proof.
+  intros A qs Hnd HU psi. rewrite unitary_matrix_branch_is_the_adjoint.
+  apply matrix_gate_then_adjoint_is_identity; assumption.
+Qed.
+Print Assumptions unitary_matrix_inverse_undoes.
 
 Example c12_nonvacuous :
   Forall cgate_ok [mkC KRX [2]%nat [1%R]; mkC KCNOT [0; 1]%nat []; mkC KT [1]%nat []] /\
